@@ -56,6 +56,7 @@ type Ctx struct {
 	log        []byte
 	Deadline   time.Time
 	minDone    map[string]bool
+	Shards     int // number of shard processes of this run (replay of history-dependent findings)
 }
 
 // mayMinimise rations minimisation: once per signature and at most 4 per
@@ -220,6 +221,8 @@ func main() {
 		os.Exit(replay(o))
 	case "selftest":
 		os.Exit(selftest(o))
+	case "c02canon":
+		c02Canon()
 	default:
 		fatal("unknown mode %s", os.Args[1])
 	}
@@ -238,6 +241,10 @@ func shard(o *opts) {
 		fatal("no check for %s", o.prop)
 	}
 	c := newCtx(o)
+	c.Shards = o.of
+	if o.only != "" {
+		c.Shards = 0
+	}
 	start := time.Now()
 	res := &ShardResult{Digests: map[string]uint64{}, Counters: c.Counters, FuncHits: map[string]uint64{}}
 	var idxs []int
